@@ -152,6 +152,7 @@ RespStack ==
         rcvrp == ViaE("UDP", "client.example.com", 5062, << <<"received", "10.0.2.3">>, <<"rport", "7777">>, <<"branch", "z9hG4bKc">> >>, 7777)
         rponly == ViaE("UDP", "10.0.2.1", 5062, << <<"rport", "7777">>, <<"branch", "z9hG4bKc">> >>, 7777)     \* rport without received: ignored
         rpempty == ViaE("UDP", "10.0.2.1", 5062, << <<"received", "10.0.2.3">>, <<"rport", NoVal>>, <<"branch", "z9hG4bKc">> >>, 0)
+        rpenop == ViaE("UDP", "client.example.com", 0, << <<"rport", NoVal>>, <<"received", "10.0.2.3">>, <<"branch", "z9hG4bKc">> >>, 0)
         tcp == ViaE("TCP", "10.0.2.1", 5062, << <<"branch", "z9hG4bKc">> >>, 0)
         tls == ViaE("TLS", "10.0.2.1", 0, << <<"branch", "z9hG4bKc">> >>, 0)
         sctp == ViaE("SCTP", "10.0.2.1", 5062, << <<"branch", "z9hG4bKc">> >>, 0)
@@ -163,6 +164,7 @@ RespStack ==
          [] rc.rvia = "rcv.rport" -> <<own, rcvrp, deep>>
          [] rc.rvia = "rportonly" -> <<own, rponly>>
          [] rc.rvia = "rportempty"-> <<own, rpempty, deep>>
+         [] rc.rvia = "rpempty.noport" -> <<own, rpenop, deep>>
          [] rc.rvia = "tcp"       -> <<own, tcp>>
          [] rc.rvia = "tls"       -> <<own, tls, deep>>
          [] rc.rvia = "sctp"      -> <<own, sctp>>
